@@ -4,6 +4,7 @@ go 1.23.0
 
 require (
 	github.com/matrix-org/gomatrixserverlib v0.0.0
+	github.com/sirupsen/logrus v1.9.3
 	gopkg.in/macaroon.v2 v2.1.0
 )
 
@@ -11,7 +12,6 @@ require (
 	github.com/hashicorp/go-set/v3 v3.0.0 // indirect
 	github.com/matrix-org/util v0.0.0-20221111132719-399730281e66 // indirect
 	github.com/oleiade/lane/v2 v2.0.0 // indirect
-	github.com/sirupsen/logrus v1.9.3 // indirect
 	github.com/tidwall/gjson v1.18.0 // indirect
 	github.com/tidwall/match v1.1.1 // indirect
 	github.com/tidwall/pretty v1.2.1 // indirect
